@@ -253,7 +253,7 @@ impl World {
             }
         }
         let mut violations: Vec<Violation> = Vec::new();
-        let is_restart = matches!(op, Op::Restart { .. });
+        let is_restart = matches!(op, Op::Restart { .. } | Op::Checkpoint { .. });
         let is_reindex = matches!(op, Op::Reindex);
         let pre_dump = if matches!(expected, Outcome::Err | Outcome::NoopEither) && !tolerate_nonatomic {
             // make sure nothing is wrong *before* the request that must change nothing, so that
@@ -284,6 +284,13 @@ impl World {
                     ExecResult::Ok(None)
                 }
                 Err(p) => ExecResult::Panic(p),
+            }
+        } else if let Op::Checkpoint { format } = op {
+            stats.probe("checkpoint_saved_without_reload");
+            match format {
+                Format::Csv => crate::restart_files::restart_csv_opts(self, stats, true).0,
+                Format::JsonInclude => crate::restart_files::checkpoint_json_include(self),
+                _ => ExecResult::Ok(None),
             }
         } else if let Op::AnnotateFile { items, fault } = op {
             let path = format!("/sim/batch/step{}.json", stepno);
@@ -577,6 +584,7 @@ pub fn leaves_residue(pre: &Model, op: &Op) -> bool {
 
 fn restart_owner(op: &Op) -> &'static str {
     match op {
+        Op::Checkpoint { format: Format::Csv } => "C15",
         Op::Restart { format: Format::Cbor } => "C11",
         Op::Restart { format: Format::Csv } => "C15",
         _ => "C05",
@@ -817,7 +825,7 @@ pub fn attribute(trace: &Trace, result: RunResult) -> RunResult {
     }
     let mut without = trace.clone();
     without.ops.truncate(step + 1);
-    without.ops.retain(|op| !matches!(op, Op::Restart { .. }));
+    without.ops.retain(|op| !matches!(op, Op::Restart { .. } | Op::Checkpoint { .. }));
     let r2 = run_trace_raw(&without);
     let same = match r2.step {
         Some(s2) if s2 + 1 == without.ops.len() => r2
